@@ -18,6 +18,7 @@
 void c11_all2_resolve0(u8*, u8*); void c11_all2_resolve1(u8*, u8*); void c11_all2_reject(u8*, u8*);
 void c11_all3_resolve0(u8*, u8*); void c11_all3_resolve1(u8*, u8*); void c11_all3_resolve2(u8*, u8*); void c11_all3_resolvevoid(u8*); void c11_all3_reject(u8*, u8*);
 void c11_any_resolve(u8*, u8*); void c11_any_resolvevoid(u8*); void c11_any_reject(u8*, u8*);
+void c11_war_ctor(u8*, u64, u8*, u8*); void c11_war_fulfil(u8*, u64, u8*);
 /* ------------------------------------------------------------------ combined promise: recording stubs with the real contract */
 static int settled;            /* 0 pending, 1 fulfilled, 2 rejected */
 static int n_resolve, n_reject, n_throw; static u32 res_val[3]; static u8* rej_exc; static u8* res_any_core; static int step_of_settle, cur_step;
@@ -58,7 +59,26 @@ void _ZNSt12__shared_ptrIN8Pistache5Async7Private4CoreELN9__gnu_cxx12_Lock_polic
 void _ZNSt12__shared_ptrIN8Pistache5Async7Private5CoreTIiEELN9__gnu_cxx12_Lock_policyE2EED2Ev(u8* s) { (void)s; }
 void _ZNSt12__shared_ptrIN8Pistache5Async7Private5CoreTIvEELN9__gnu_cxx12_Lock_policyE2EED2Ev(u8* s) { (void)s; }
 
-static u8 data[SIZEOF_AllData3 > SIZEOF_AnyData ? SIZEOF_AllData3 : SIZEOF_AnyData] __attribute__((aligned(8)));
+/* ------------------------------------------------------------------ std::vector<int> (results of the range form): { storage, size } */
+#define VMAX 4
+static u32 vstore[VMAX];
+typedef struct { u32* b; u64 n; u64 cap; } gvi_t;
+void _ZNSt6vectorIiSaIiEEC2Ev(u8* v) { ((gvi_t*)v)->b = vstore; ((gvi_t*)v)->n = 0; ((gvi_t*)v)->cap = 0; }
+void _ZNSt6vectorIiSaIiEED2Ev(u8* v) { (void)v; }
+void _ZNSt6vectorIiSaIiEE6resizeEm(u8* v, u64 n) { __CPROVER_assert(n <= VMAX, "ghost vector<int> capacity (harness bound)"); for (u64 i = 0; i < VMAX; i++) if (i >= ((gvi_t*)v)->n && i < n) vstore[i] = 0; ((gvi_t*)v)->n = n; }
+void _ZNSt6vectorIiSaIiEE7reserveEm(u8* v, u64 n) { __CPROVER_assert(n <= VMAX, "ghost vector<int> capacity (harness bound)"); ((gvi_t*)v)->cap = n; }
+u8* _ZNSt6vectorIiSaIiEEixEm(u8* v, u64 i) { __CPROVER_assert(i < ((gvi_t*)v)->n, "vector<int>::operator[] inside the vector"); return (u8*)&vstore[i < VMAX ? i : 0]; }
+void _ZNSt6vectorIiSaIiEE9push_backERKi(u8* v, u8* x) { __CPROVER_assert(((gvi_t*)v)->n < VMAX, "ghost vector<int> capacity (harness bound)"); if (((gvi_t*)v)->n < VMAX) { vstore[((gvi_t*)v)->n] = *(u32*)x; ((gvi_t*)v)->n++; } }
+u64 _ZNKSt6vectorIiSaIiEE4sizeEv(u8* v) { return ((gvi_t*)v)->n; }
+static u64 res_vec_n;
+u8 _ZNK8Pistache5Async8ResolverclIRSt6vectorIiSaIiEEEEbOT_(u8* self, u8* v) { if (!do_resolve(self)) return 0; __CPROVER_assert(v == data_obj + off_results, "all-of fulfils with the results vector of the policy data"); res_vec_n = ((gvi_t*)v)->n; for (int i = 0; i < 3; i++) res_val[i] = vstore[i]; return 1; }
+u8* _ZNKSt19__shared_ptr_accessIN8Pistache5Async4Impl12WhenAllRangeIiSt6vectorIiSaIiEEE5DataTIivEELN9__gnu_cxx12_Lock_policyE2ELb0ELb0EEptEv(u8* sp) { return *(u8**)sp; }
+void _ZNSt10shared_ptrIN8Pistache5Async4Impl12WhenAllRangeIiSt6vectorIiSaIiEEE5DataTIivEEEC2ERKSA_(u8* d, u8* s) { *(u8**)d = *(u8**)s; *(u8**)(d + 8) = 0; }
+void _ZNSt12__shared_ptrIN8Pistache5Async4Impl12WhenAllRangeIiSt6vectorIiSaIiEEE5DataTIivEELN9__gnu_cxx12_Lock_policyE2EED2Ev(u8* s) { (void)s; }
+void _ZNSt10shared_ptrIN8Pistache5Async7Private4CoreEEC2EOS4_(u8* d, u8* s) { *(u8**)d = *(u8**)s; *(u8**)(d + 8) = *(u8**)(s + 8); *(u8**)s = 0; }
+void _ZNSt5mutexC2Ev(u8* m) { (void)m; }
+
+static u8 data[SIZEOF_WarData > SIZEOF_AllData3 ? SIZEOF_WarData : SIZEOF_AllData3] __attribute__((aligned(8)));
 static u8 excs[3][8];
 
 int main(void) {
@@ -67,6 +87,12 @@ int main(void) {
 #if defined(H_ALL)
   off_resolve = OFF_AllData_resolve; off_reject = OFF_AllData_reject; off_results = NIN == 2 ? OFF_AllData2_results : OFF_AllData3_results;
   *(u64*)(data + OFF_AllData_total) = NIN; *(u64*)(data + OFF_AllData_resolved) = 0; data[OFF_AllData_rejected] = 0;
+#elif defined(H_RANGE)
+  off_resolve = OFF_WarData_resolve; off_reject = OFF_WarData_reject; off_results = OFF_WarData_results;
+  { static u8 r0[16], j0[16]; c11_war_ctor(data, NIN, r0, j0); __CPROVER_assert(!vp_take_exception(), "constructing the range data does not throw"); }
+  __CPROVER_assert(*(u64*)(data + OFF_WarData_total) == NIN && *(u64*)(data + OFF_WarData_resolved) == 0 && data[OFF_WarData_rejected] == 0, "range data starts with nothing fulfilled, not rejected");
+  u8 pre_rejected; VP_SET(u8, pre_rejected, "pre_rejected"); __CPROVER_assume(pre_rejected <= 1); data[OFF_WarData_rejected] = pre_rejected;   /* an input rejected earlier (the rejection lambda has run) */
+  if (pre_rejected) settled = 2;
 #else
   off_resolve = OFF_AnyData_resolve; off_reject = OFF_AnyData_reject; off_results = 0; data[OFF_AnyData_done] = 0;
 #endif
@@ -81,6 +107,9 @@ int main(void) {
     u32 k; VP_SET(u32, k, "who"); __CPROVER_assume(k < NIN && !used[k]); used[k] = 1; order[s] = (int)k; cur_step = s;
     if (first < 0) first = (int)k;
     u8* excp[1] = { excs[k] };
+#ifdef H_RANGE
+    __CPROVER_assume(!rejects[k]);
+#endif
     if (rejects[k]) {
       if (first_reject < 0) first_reject = (int)k;
 #if defined(H_ALL)
@@ -90,7 +119,9 @@ int main(void) {
 #endif
     } else {
       n_ful++;
-#if defined(H_ALL)
+#if defined(H_RANGE)
+      c11_war_fulfil((u8*)sp, (u64)k, (u8*)&val[k]);
+#elif defined(H_ALL)
 #ifdef VOIDS
       c11_all3_resolvevoid((u8*)sp);
 #else
@@ -110,6 +141,17 @@ int main(void) {
     __CPROVER_assert(!mtx_held, "the data mutex is released when the policy returns");
     __CPROVER_assert(n_resolve + n_reject <= 1, "the combined promise is settled at most once");
   }
+#ifdef H_RANGE
+  if (data[OFF_WarData_rejected]) __CPROVER_assert(n_resolve == 0, "range all-of: nothing is fulfilled after a rejection");
+  else {
+    __CPROVER_assert(n_resolve == 1 && step_of_settle == NIN - 1, "range all-of fulfils exactly once, when the last input has fulfilled");
+    __CPROVER_assert(res_vec_n == NIN, "range all-of fulfils with one value per input");
+    for (int i = 0; i < NIN; i++) __CPROVER_assert(res_val[i] == val[i], "range all-of fulfils with all values in argument order");
+  }
+  __CPROVER_assert(n_throw == 0, "the combined promise is never settled a second time");
+  VP_END("witness: end of harness reached");
+  return 0;
+#endif
   __CPROVER_assert(n_throw == 0, "the combined promise is never settled a second time");
 #if defined(H_ALL)
   if (first_reject >= 0) {
